@@ -152,10 +152,10 @@ fn compute_block_facts<'ast, 'arena>(
             for &local in &op.reads {
                 note_use(&mut uses, &defs, local, local_start);
             }
-            for &local in &op.writes {
-                note_def(&mut defs, local, local_start);
-            }
 
+            // The callees of an op run while its expression is evaluated, i.e. before
+            // the op's own write takes effect: `x get f()` with f reading x uses the
+            // old x. Their capture reads therefore count before the op's definitions.
             for &callee in &op.direct_callees {
                 let summary = &summaries[callee.0 as usize];
                 if !summary.available {
@@ -169,6 +169,10 @@ fn compute_block_facts<'ast, 'arena>(
                 }
                 // A callee's capture writes are may-writes (they can sit behind a
                 // condition), so they never kill the caller's earlier definition.
+            }
+
+            for &local in &op.writes {
+                note_def(&mut defs, local, local_start);
             }
         }
 
